@@ -235,7 +235,7 @@ package jet
 //@   callsite (*Template).multiplicativeExpression count 0
 
 //@ func (*Template).parseExpression
-//@   props C02 C04
+//@   props C02 C04 C06
 //@   requires PInv(t)
 //@   modifies @Parse
 //@   ensures PInv(t) && t.peekCount <= 2 && result0 != nil && WFTag(result0)
@@ -251,9 +251,9 @@ package jet
 //@   ensures PInv(t) && result != nil && WFTag(result)
 
 //@ func (*Template).newNumber
-//@   props C02 C04
+//@   props C02 C04 C12
 //@   nocrash
-//@   requires t != nil
+//@   requires t != nil && t.lex != nil && 0 <= t.lex.lastPos && t.lex.lastPos <= len(t.lex.input)
 //@   loop 0 invariant true
 //@   ensures result1 == nil ==> result0 != nil && fresh(result0) && result0.NodeType == NodeNumber
 //@   ensures [every-accepted-numeric-literal-is-a-float] {C04} result1 == nil && typ == itemNumber ==> result0.IsFloat || result0.IsComplex
@@ -266,7 +266,7 @@ package jet
 //@   nopanic
 
 //@ func (*Template).term
-//@   props C02
+//@   props C02 C06
 //@   requires PInv(t)
 //@   modifies @Parse
 //@   ensures PInv(t) && WFTag(result)
@@ -408,7 +408,7 @@ package jet
 //@   callsite (*lexer).lineNumber * requires [line-read-before-the-body-is-parsed] {C12} ncalls("(*Template).itemList") == 0
 
 //@ func (*Template).parseInclude
-//@   props C02
+//@   props C02 C08
 //@   requires PInv(t)
 //@   modifies @Parse
 //@   ensures PInv(t) && result != nil && WFTag(result)
